@@ -12,7 +12,7 @@ def run(ctx):
     sat_common.run_property(ctx, "C02")
     ctx.rule = ("cases = CNF x assumptions x solution_limit x luby_factor x budgets from the families listed in scopes; "
                 "contract: INFEASIBLE only if no model (oracle), a model whenever one exists and budgets are generous, never a model for an unsatisfiable formula, status in {OPTIMAL, INFEASIBLE, MAX_ITER}, every call returns (per-case alarm 6-60 s, far above the observed milliseconds); "
-                + sat_common.ROUND2_RULE +
+                + sat_common.ROUND2_RULE + sat_common.ROUND3_RULE +
                 "non-trivial = the run made >= 1 decision on a formula with > 1 clause, or returned > 1 model; distinct = different (formula or recipe, configuration) / different call sequence")
     ctx.assumptions += ["oracle: planted witness (checked by direct evaluation) on the size ladder - a formula with a verified model can never be INFEASIBLE; "
                         "a returned assignment that passes evaluation certifies satisfiability; brute force up to 14 variables, z3 above "
